@@ -134,7 +134,62 @@ def disc_scratch(check):
             check.violation("DISC-SCRATCH", qn + ".rhs", "rhs() overwrites configuration attribute self.%s (line %d)" % bad[0], rhs.loc(), key="cfg-" + bad[0][0])
 
 
+def monitor_reset(check):
+    """solve() starts every monitor of the dictionary it is given from an empty record: the
+    function it calls to drop the previous 'output' does so for EVERY entry (a condition on the
+    entry's name or type leaves the records of the others to accumulate over repeated solves);
+    only a presence test of 'output' itself may guard the removal"""
+    proj = check.proj
+    tm = proj.cls("integration.timemodel")
+    solve = proj.resolve(tm, "solve")
+    sn = solve.params[0]
+    cands = []
+    for n in ast.walk(solve.node):
+        if isinstance(n, ast.Call) and isinstance(n.func, ast.Attribute) and isinstance(n.func.value, ast.Name) and n.func.value.id == sn:
+            g = proj.resolve(tm, n.func.attr)
+            if g is not None:
+                cands.append(g)
+    cands.append(solve)
+
+    def removals(fn):
+        out = []
+
+        def walk(stmts, guards, inloop):
+            for st in stmts:
+                if isinstance(st, ast.If):
+                    walk(st.body, guards + [st.test], inloop)
+                    walk(st.orelse, guards + [st.test], inloop)
+                    continue
+                if isinstance(st, (ast.For, ast.While)):
+                    walk(st.body, guards, True)
+                    continue
+                for n in ast.walk(st):
+                    is_pop = isinstance(n, ast.Call) and isinstance(n.func, ast.Attribute) and n.func.attr == "pop" and n.args and isinstance(n.args[0], ast.Constant) and n.args[0].value == "output"
+                    is_del = isinstance(n, ast.Delete) and any(isinstance(t, ast.Subscript) and isinstance(t.slice, ast.Constant) and t.slice.value == "output" for t in n.targets)
+                    if is_pop or is_del:
+                        out.append((st.lineno, list(guards), inloop))
+        walk(fn.node.body, [], False)
+        return out
+    found = [(g, r) for g in cands for r in removals(g)]
+    if not found:
+        check.violation("MON-RESET", solve.qualname, "solve() does not drop the previous 'output' of the monitors it is given: records accumulate over repeated solves", solve.loc(), key="no-reset")
+        return
+    for g, (ln, guards, inloop) in found:
+        foreign = []
+        for t in guards:
+            consts = [c.value for c in ast.walk(t) if isinstance(c, ast.Constant) and isinstance(c.value, str)]
+            if consts != ["output"] and not (consts == [] and False):
+                foreign.append(unparse(t)[:70])
+        if foreign:
+            check.violation("MON-RESET", g.qualname, "the previous 'output' of a monitor is dropped only when `%s`: entries for which the condition fails (a monitor under a custom key with a 'type' entry) keep their records, which accumulate over repeated solves" % foreign[0], "%s:%d" % (g.module.relpath, ln), key="conditional-reset")
+        elif not inloop:
+            check.violation("MON-RESET", g.qualname, "the 'output' removal is not inside a loop over the monitor dictionary", "%s:%d" % (g.module.relpath, ln), key="no-loop")
+        else:
+            check.ok("MON-RESET", g.qualname, "every entry of the monitor dictionary loses its previous 'output' before the run (guarded at most by the presence of 'output')", "%s:%d" % (g.module.relpath, ln))
+
+
 def monitors(check):
+    monitor_reset(check)
     proj = check.proj
     tm = proj.cls("integration.timemodel")
     init = proj.resolve(tm, "__init__")
